@@ -216,6 +216,12 @@ fn cmd_replay(args: &[String]) {
                         "rule": c.rule.to_string(), "data": c.data.to_string(), "profile": profile(), "case": c.raw.clone()});
                     writeln!(out, "{}", rec).unwrap();
                     next += 1;
+                    if hung >= 5 {
+                        // stuck threads keep spinning: do not let a systematic hang eat the time budget
+                        let rec = json!({"kind": "hang", "why": format!("replay stopped after {} hangs; {} cases not run", hung, n - next), "sc": ["C01"], "rule": "(remaining cases)", "data": "", "profile": profile()});
+                        writeln!(out, "{}", rec).unwrap();
+                        next = n;
+                    }
                     break; // abandon the stuck worker, start a new one
                 }
                 Err(mpsc::RecvTimeoutError::Disconnected) => {
